@@ -90,7 +90,12 @@ class Relation:
         )
 
     def __lt__(self, other: Any) -> bool:
-        return str(self) < str(other)
+        return self._sort_key() < other._sort_key()
+
+    def _sort_key(self) -> tuple[str, int, int, list[str]]:
+        """Key consistent with __eq__ (i.e., independent of the order of the children)."""
+        parent_name = self.parent.name if self.parent else ""
+        return (parent_name, self.card_min, self.card_max, sorted(c.name for c in self.children))
 
 
 class FeatureType(Enum):
